@@ -81,6 +81,8 @@ class Fit(Contract):
                     vals.append(box(v))
             elif kind == 'none':
                 vals.append(z3.Const('NONE_OBJ', O()))
+            elif kind == 'false':
+                vals.append(z3.Const('FALSE_OBJ', O()))
         f = z3.Function(self.fname, *([O()] * len(vals)), O())
         out = [('result-is-the-function-on-the-stored-configuration', s1.result_ == f(*vals))]
         keep = []
@@ -98,14 +100,17 @@ KC, KM, HY = 'enspara/cluster/kcenters.py', 'enspara/cluster/kmedoids.py', 'ensp
 
 
 def registry():
-    kc_args = ['traj', 'distance_method', 'n_clusters', 'dist_cutoff', 'init_centers', 'random_first_center', 'mpi_mode']
-    km_args = ['X', 'distance_method', 'n_clusters', 'n_iters', 'assignments', 'distances', 'cluster_center_inds', 'X_lengths', 'args']
+    # every parameter of the function's signature (the ones the estimator does not pass take their defaults: the stored configuration
+    # has no field for them - an estimator that switches one on, e.g. the triangle-inequality shortcut, no longer computes the
+    # function of its configuration)
+    kc_args = ['traj', 'distance_method', 'n_clusters', 'dist_cutoff', 'init_centers', 'random_first_center', 'use_triangle_inequality', 'mpi_mode']
+    km_args = ['X', 'distance_method', 'n_clusters', 'n_iters', 'assignments', 'distances', 'cluster_center_inds', 'proposals', 'X_lengths', 'args', 'lengths', 'random_state']
     hy_args = ['X', 'distance_method', 'n_iters', 'n_clusters', 'dist_cutoff', 'random_first_center', 'init_centers', 'random_state', 'mpi_mode', 'args', 'lengths']
     cs = [Opaque3(KC + '::kcenters', 'KCENTERS', kc_args), Opaque3(KM + '::kmedoids', 'KMEDOIDS', km_args), Opaque3(HY + '::hybrid', 'HYBRID', hy_args),
           Fit('KCenters', KC, 'KCENTERS', {'metric': 'obj', 'n_clusters': 'int', 'cluster_radius': 'real', 'random_first_center': 'false', 'mpi_mode': 'false'},
-              [('arg', 'X'), ('field', 'metric'), ('field', 'n_clusters'), ('field', 'cluster_radius'), ('arg', 'init_centers'), ('field', 'random_first_center'), ('field', 'mpi_mode')]),
+              [('arg', 'X'), ('field', 'metric'), ('field', 'n_clusters'), ('field', 'cluster_radius'), ('arg', 'init_centers'), ('field', 'random_first_center'), ('false', None), ('field', 'mpi_mode')]),
           Fit('KMedoids', KM, 'KMEDOIDS', {'metric': 'obj', 'n_clusters': 'int', 'n_iters': 'int'},
-              [('arg', 'X'), ('field', 'metric'), ('field', 'n_clusters'), ('field', 'n_iters'), ('arg', 'assignments'), ('arg', 'distances'), ('arg', 'cluster_center_inds'), ('arg', 'X_lengths'), ('none', None)]),
+              [('arg', 'X'), ('field', 'metric'), ('field', 'n_clusters'), ('field', 'n_iters'), ('arg', 'assignments'), ('arg', 'distances'), ('arg', 'cluster_center_inds'), ('none', None), ('arg', 'X_lengths'), ('none', None), ('none', None), ('none', None)]),
           Fit('KHybrid', HY, 'HYBRID', {'metric': 'obj', 'n_clusters': 'int', 'cluster_radius': 'real', 'kmedoids_updates': 'int', 'random_first_center': 'false', 'random_state': 'obj', 'mpi_mode': 'false', 'args': 'none', 'lengths': 'none'},
               [('arg', 'X'), ('field', 'metric'), ('field', 'kmedoids_updates'), ('field', 'n_clusters'), ('field', 'cluster_radius'), ('field', 'random_first_center'), ('arg', 'init_centers'),
                ('field', 'random_state'), ('field', 'mpi_mode'), ('field', 'args'), ('field', 'lengths')])]
